@@ -78,7 +78,7 @@ def to_record(law, out):
 
 
 def fingerprint(verdict, cell):
-    parts = [f"{k}={cell[k]}" for k in sorted(cell) if k not in _COARSE and cell[k] not in ("-", 0)]
+    parts = [f"{k}={cell[k]}" for k in sorted(cell) if k not in _COARSE and k != "clause" and cell[k] not in ("-", 0)]
     if "bsrc" in cell:
         parts.append("bsrc=" + ("random-positive" if cell["bsrc"] == 0 else "nf"))
     return f"{verdict} " + " ".join(parts)
@@ -176,7 +176,7 @@ def run_law(chk, law, measure, *, npts_quick, npts_thorough, switches=(), procs=
         if verdict.startswith(law + ":") and "cell" not in verdict.split(":", 1)[1]:
             nviol += 1
             what = (f"law {verdict} violated in cell {rec['cell']}: observed dec={rec['dec']} "
-                    f"exp100={rec['exp100']} raw={o.get('raw')} required {req_of[json.dumps(rec['cell'], sort_keys=True)]}")
+                    f"exp100={rec['exp100']} raw={o.get('raw', o.get('raw_exp'))} required {req_of[json.dumps(rec['cell'], sort_keys=True)]}")
             chk.violation(fingerprint(verdict, rec["cell"]), what,
                           {"law": law, "cell": rec["cell"], "record": rec, "seed": chk.seed,
                            "detail": {k: v for k, v in o.items() if k not in ("cell", "tb")}})
@@ -185,9 +185,14 @@ def run_law(chk, law, measure, *, npts_quick, npts_thorough, switches=(), procs=
     chk.note("cells_violating", nviol)
 
     # ---- binding demonstration: corrupted records must be rejected --------------------------
+    failing = {t[1] - 1 for t in bad}
     good = [k for k, rec in enumerate(recs)
-            if rec["resolved"] and req_of[json.dumps(rec["cell"], sort_keys=True)]["kind"] != "none"]
+            if rec["resolved"] and k not in failing
+            and req_of[json.dumps(rec["cell"], sort_keys=True)]["kind"] != "none"]
     if not good:
+        if chk.violations:
+            chk.note("binding_demo", "skipped: no accepted cell left to corrupt (all resolved cells violate)")
+            return outs
         raise MachineryError(f"{law}: no resolved cell with a required class")
     k0 = good[len(good) // 2]
     c1 = copy.deepcopy(recs)
